@@ -1,7 +1,7 @@
 (* Properties/C13.v -- DPLSTM / DPGRU / DPRNN are drop-in equivalents of the torch.nn recurrent layers  (PARTIAL: torch's kernels and the
    gate equations are compared numerically; proved here is the index plumbing of the packed time loop, for EVERY cell). *)
 From Coq Require Import List Arith Lia.
-From OV Require Import Gen.Rnn Proofs.RnnP.
+From OV Require Import Gen.Rnn Proofs.RnnP Proofs.RnnStack.
 Import ListNotations.
 
 (* running the code's batched time loop (batch shrinking with the packed sequence, previous state sliced to the current batch) on the
@@ -30,6 +30,31 @@ Proof. exact (seq_lengths_correct b0 rest i). Qed.
 Theorem C13_seq_lengths_length (b0 : nat) (rest : list nat) : noninc b0 rest -> length (compute_seq_lengths (b0 :: rest)) = b0.
 Proof. exact (seq_lengths_length b0 rest). Qed.
 
+(* the layer loop of DPRNNBase.forward (pinned structurally: layers outermost, directions inside, state index layer * P + direction, the
+   directions' outputs concatenated, dropout on the outputs of every layer but the last): for ANY per-(layer, direction) run function,
+   concatenation, dropout map, number of layers L >= 1 and directions P, the loop returns the UNdropped output of the last layer fed with
+   the dropped outputs of the layers below, and the L * P final states in layer-major order, entry l * P + dir being the state returned by
+   (layer l, direction dir) -- torch.nn's stacking semantics *)
+Theorem C13_layer_stack (Seq St : Type) (run : nat -> nat -> Seq -> St -> Seq * St) (cat : list Seq -> Seq) (drop : nat -> Seq -> Seq)
+    (P : nat) (h0 : nat -> St) (L : nat) (x : Seq) : 0 < L ->
+  stack Seq St run cat drop P h0 L 0 x [] =
+    (cat (map fst (runs Seq St run P h0 (L - 1) (layer_input Seq St run cat drop P h0 x (L - 1)))), all_states Seq St run cat drop P h0 x L) /\
+  length (all_states Seq St run cat drop P h0 x L) = L * P /\
+  (forall l dir d, l < L -> dir < P ->
+     nth (l * P + dir) (all_states Seq St run cat drop P h0 x L) d = snd (run l dir (layer_input Seq St run cat drop P h0 x l) (h0 (l * P + dir)))).
+Proof.
+  intros H. split; [exact (stack_is_torch_semantics Seq St run cat drop P h0 L x H)|].
+  split; [exact (all_states_length Seq St run cat drop P h0 x L)|].
+  intros l dir d Hl Hd. exact (all_states_nth Seq St run cat drop P h0 x L l dir d Hl Hd).
+Qed.
+(* unsorted packed input: initial states are selected by sorted_indices, final states by unsorted_indices (apply_permutation = index_select);
+   for any row-wise computation F and inverse permutations the caller sees F applied to the rows in their original order *)
+Theorem C13_sort_unsort_rowwise (A B : Type) (dA : A) (dB : B) (F : A -> B) (rows : list A) (sorted unsorted : list nat) :
+  length sorted = length rows -> length unsorted = length rows ->
+  (forall i, i < length rows -> nth i unsorted 0 < length rows /\ nth (nth i unsorted 0) sorted 0 = i) ->
+  select dB (map F (select dA rows sorted)) unsorted = map F rows.
+Proof. exact (sort_unsort_rowwise A B dA dB F rows sorted unsorted). Qed.
+
 Example C13_nonvacuous :
   noninc 3 [3; 2; 1] /\ compute_seq_lengths [3; 3; 2; 1] = [4; 3; 2] /\
   loop (fun x h => x + 2 * h) (cols 4 [[1; 2; 3; 4]; [5; 6; 7]; [8; 9]]) [0; 1; 2] = cols 4 (scans (fun x h => x + 2 * h) [0; 1; 2] [[1; 2; 3; 4]; [5; 6; 7]; [8; 9]]).
@@ -40,3 +65,5 @@ Print Assumptions C13_reverse_loop_rows.
 Print Assumptions C13_reverse_layer_rows.
 Print Assumptions C13_seq_lengths_correct.
 Print Assumptions C13_seq_lengths_length.
+Print Assumptions C13_layer_stack.
+Print Assumptions C13_sort_unsort_rowwise.
